@@ -5,21 +5,22 @@ static const char *const CNT[] = { "struct_singular", "matched", "unique_optimum
 enum { K_SING, K_OK, K_UNIQ, K_TIED, K_ZD, K_N4 };
 static const char *const RAT[] = { "logsum_gap_over_tol", "scaled_entry_excess_over_tol", NULL };
 
-static void s17a(const int *d, vcase *c) { all123(d[0], &c->n, &c->pat); c->m = c->n; c->vals = d[1]; c->type = d[2]; }
-static void s17b(const int *d, vcase *c) { c->n = c->m = 4; c->pat = (uint64_t)d[0]; c->vals = (int[]){ 0, 1, 7, 4, 3, 5 }[d[1]]; c->type = d[2]; }
-static void s17c(const int *d, vcase *c) { c->n = c->m = 5; c->pat = dev1_pattern(5, base_pattern(5, d[0]), d[1]); c->vals = d[2]; c->type = d[3]; }
-static void s17d(const int *d, vcase *c) { c->n = c->m = 6; c->pat = dev1_pattern(6, base_pattern(6, d[0]), d[1]); c->vals = d[2]; c->type = d[3]; }
+static const int V17[] = { 0, 1, 2, 3, 4, 5, 6, 7, 15 };
+static void s17a(const int *d, vcase *c) { all123(d[0], &c->n, &c->pat); c->m = c->n; c->vals = V17[d[1]]; c->type = d[2]; }
+static void s17b(const int *d, vcase *c) { c->n = c->m = 4; c->pat = (uint64_t)d[0]; c->vals = (int[]){ 0, 1, 7, 15, 4, 3, 5 }[d[1]]; c->type = d[2]; }
+static void s17c(const int *d, vcase *c) { c->n = c->m = 5; c->pat = dev1_pattern(5, base_pattern(5, d[0]), d[1]); c->vals = V17[d[2]]; c->type = d[3]; }
+static void s17d(const int *d, vcase *c) { c->n = c->m = 6; c->pat = dev1_pattern(6, base_pattern(6, d[0]), d[1]); c->vals = V17[d[2]]; c->type = d[3]; }
 static const family F17Q[] = {
-    { "ALL(1..3) x V0-V7 x type4", 3, { N_ALL123, 8, 4 }, s17a },
-    { "ALL(4) x {V0,V1,V7} x type4", 3, { N_ALL4, 3, 4 }, s17b },
-    { "DEV_1(BASE(5)) x V0-V7 x type4", 4, { 9, 26, 8, 4 }, s17c },
-    { "DEV_1(BASE(6)) x V0-V7 x type4", 4, { 9, 37, 8, 4 }, s17d },
+    { "ALL(1..3) x {V0-V7,V15} x type4", 3, { N_ALL123, 9, 4 }, s17a },
+    { "ALL(4) x {V0,V1,V7,V15} x type4", 3, { N_ALL4, 4, 4 }, s17b },
+    { "DEV_1(BASE(5)) x {V0-V7,V15} x type4", 4, { 9, 26, 9, 4 }, s17c },
+    { "DEV_1(BASE(6)) x {V0-V7,V15} x type4", 4, { 9, 37, 9, 4 }, s17d },
 };
 static const family F17T[] = {
-    { "ALL(1..3) x V0-V7 x type4", 3, { N_ALL123, 8, 4 }, s17a },
-    { "ALL(4) x {V0,V1,V7,V4,V3,V5} x type4", 3, { N_ALL4, 6, 4 }, s17b },
-    { "DEV_1(BASE(5)) x V0-V7 x type4", 4, { 9, 26, 8, 4 }, s17c },
-    { "DEV_1(BASE(6)) x V0-V7 x type4", 4, { 9, 37, 8, 4 }, s17d },
+    { "ALL(1..3) x {V0-V7,V15} x type4", 3, { N_ALL123, 9, 4 }, s17a },
+    { "ALL(4) x {V0,V1,V7,V15,V4,V3,V5} x type4", 3, { N_ALL4, 7, 4 }, s17b },
+    { "DEV_1(BASE(5)) x {V0-V7,V15} x type4", 4, { 9, 26, 9, 4 }, s17c },
+    { "DEV_1(BASE(6)) x {V0-V7,V15} x type4", 4, { 9, 37, 9, 4 }, s17d },
 };
 #define NF(F) ((int)(sizeof F / sizeof *F))
 static long sz_17(int tier) { return tier ? fam_total(F17T, NF(F17T)) : fam_total(F17Q, NF(F17Q)); }
